@@ -1109,4 +1109,347 @@ theorem simultaneous_schedule_admissible :
       .deliverCS, .deliverCS, .deliverCS, .deliverCS, .deliverSC, .deliverSC, .submitC (data 4), .deliverSC] := by
   simp [sysAppOnly, data, MSG_KEX_LAST]
 
+/-! ### the pair delivers exactly what was submitted, in order, across any number of re-exchanges -/
+
+/-- the message types that can appear on the wire of an endpoint whose upper layers submit application packets:
+    those, plus IGNORE and the four key-exchange messages -/
+def okType (t : Nat) : Bool :=
+  deferrable t || t == MSG_IGNORE || t == MSG_KEXINIT || t == MSG_NEWKEYS || t == MSG_KEX_INIT || t == MSG_KEX_REPLY
+
+structure OutOK (e : Endpoint) : Prop where
+  wire : ∀ w ∈ e.out, okType w.pkt.type = true
+  queue : ∀ p ∈ e.deferred, okType p.type = true
+
+theorem emit_ook (e : Endpoint) (p : Pkt) (h : OutOK e) (hp : okType p.type = true) : OutOK (emit e p) := by
+  refine ⟨?_, h.queue⟩
+  intro w hw
+  simp only [emit, List.mem_append, List.mem_singleton] at hw
+  rcases hw with hw | rfl
+  · exact h.wire w hw
+  · exact hp
+
+theorem sendKexinit_ook (e : Endpoint) (h : OutOK e) : OutOK (sendKexinit e) := by
+  unfold sendKexinit
+  exact emit_ook _ _ ⟨h.wire, h.queue⟩ (by decide)
+
+theorem sendPacket_ook (e : Endpoint) (p : Pkt) (h : OutOK e) (hp : okType p.type = true) : OutOK (sendPacket e p) := by
+  unfold sendPacket
+  have h1 : OutOK
+      (if e.authComplete && e.kexComplete && e.rekeyDue then { sendKexinit e with kexinitSent := true } else e) := by
+    split
+    · exact ⟨(sendKexinit_ook e h).wire, (sendKexinit_ook e h).queue⟩
+    · exact h
+  generalize (if e.authComplete && e.kexComplete && e.rekeyDue then { sendKexinit e with kexinitSent := true } else e) = e1 at h1 ⊢
+  simp only
+  split
+  · refine ⟨h1.wire, ?_⟩
+    intro q hq
+    simp only [List.mem_append, List.mem_singleton] at hq
+    rcases hq with hq | rfl
+    · exact h1.queue q hq
+    · exact hp
+  · split
+    · exact emit_ook _ _ (emit_ook _ _ h1 (by decide)) hp
+    · exact emit_ook _ _ h1 hp
+
+theorem foldl_sendPacket_ook (l : List Pkt) (e : Endpoint) (h : OutOK e) (hl : ∀ p ∈ l, okType p.type = true) :
+    OutOK (l.foldl sendPacket e) := by
+  induction l generalizing e with
+  | nil => exact h
+  | cons p ps ih => exact ih _ (sendPacket_ook e p h (hl p (by simp))) (fun q hq => hl q (by simp [hq]))
+
+theorem sendNewkeys_ook (e : Endpoint) (h : OutOK e) : OutOK (sendNewkeys e) := by
+  unfold sendNewkeys flushDeferred
+  have h1 := sendPacket_ook e ⟨MSG_NEWKEYS, 0⟩ h (by decide)
+  exact foldl_sendPacket_ook _ _ ⟨h1.wire, by intro p hp; cases hp⟩ h1.queue
+
+theorem recvPacket_ook (e : Endpoint) (w : Wire) (h : OutOK e) : OutOK (recvPacket e w) := by
+  have hf : ∀ e' : Endpoint, e'.out = e.out → e'.deferred = e.deferred → OutOK e' := by
+    intro e' h1 h2; exact ⟨by rw [h1]; exact h.wire, by rw [h2]; exact h.queue⟩
+  unfold recvPacket
+  split
+  · exact h
+  · split
+    · exact hf _ rfl rfl
+    · simp only
+      split
+      · split
+        · exact hf _ rfl rfl
+        · split
+          · split
+            · exact hf _ rfl rfl
+            · exact sendPacket_ook _ _ (hf _ rfl rfl) (by decide)
+          · split
+            · exact ⟨(sendKexinit_ook e h).wire, (sendKexinit_ook e h).queue⟩
+            · exact sendPacket_ook _ _ ⟨(sendKexinit_ook e h).wire, (sendKexinit_ook e h).queue⟩ (by decide)
+      · split
+        · split
+          · exact sendNewkeys_ook _ (sendPacket_ook e _ h (by decide))
+          · exact hf _ rfl rfl
+        · split
+          · split
+            · exact sendNewkeys_ook e h
+            · exact hf _ rfl rfl
+          · split
+            · split <;> exact hf _ rfl rfl
+            · split
+              · exact h
+              · exact hf _ rfl rfl
+
+/-- sending never touches what was delivered -/
+theorem sendPacket_delivered (e : Endpoint) (p : Pkt) : (sendPacket e p).delivered = e.delivered := by
+  unfold sendPacket
+  simp only
+  split <;> split <;> (try split) <;> simp [sendKexinit, emit]
+
+theorem foldl_sendPacket_delivered (l : List Pkt) (e : Endpoint) : (l.foldl sendPacket e).delivered = e.delivered := by
+  induction l generalizing e with
+  | nil => rfl
+  | cons p ps ih => simp only [List.foldl_cons]; rw [ih, sendPacket_delivered]
+
+theorem sendNewkeys_delivered (e : Endpoint) : (sendNewkeys e).delivered = e.delivered := by
+  unfold sendNewkeys flushDeferred
+  rw [foldl_sendPacket_delivered]
+  exact sendPacket_delivered e _
+
+open AsyncsshModel.RekeyAbs in
+/-- a delivery hands the packet to upper layers exactly when it is neither key exchange nor IGNORE -/
+theorem recvPacket_delivered (e : Endpoint) (w : Wire) (hf : e.failed = false) (hep : w.epoch = e.recvEpoch) :
+    (recvPacket e w).delivered =
+      if ctlOf w.pkt.type = none ∧ w.pkt.type ≠ MSG_IGNORE then e.delivered ++ [w.pkt] else e.delivered := by
+  rw [recvPacket_ok e w hf hep]
+  unfold recvBody
+  simp only
+  by_cases h20 : w.pkt.type = MSG_KEXINIT
+  · have hc : ctlOf w.pkt.type = some .kexinit := by rw [h20]; decide
+    have hR : (if ctlOf w.pkt.type = none ∧ w.pkt.type ≠ MSG_IGNORE then e.delivered ++ [w.pkt] else e.delivered) =
+        e.delivered := if_neg (by rw [hc]; simp)
+    rw [hR]
+    simp only [h20, if_true]
+    split
+    · simp
+    · split <;> split <;> simp [sendPacket_delivered, sendKexinit, emit]
+  · by_cases h30 : w.pkt.type = MSG_KEX_INIT
+    · have hc : ctlOf w.pkt.type = some .kinit := by rw [h30]; decide
+      have hR : (if ctlOf w.pkt.type = none ∧ w.pkt.type ≠ MSG_IGNORE then e.delivered ++ [w.pkt] else e.delivered) =
+          e.delivered := if_neg (by rw [hc]; simp)
+      rw [hR]
+      have : ¬ (MSG_KEX_INIT = MSG_KEXINIT) := by decide
+      simp only [h30, this, if_true, if_false]
+      split
+      · rw [sendNewkeys_delivered, sendPacket_delivered]
+      · simp
+    · by_cases h31 : w.pkt.type = MSG_KEX_REPLY
+      · have hc : ctlOf w.pkt.type = some .kreply := by rw [h31]; decide
+        have hR : (if ctlOf w.pkt.type = none ∧ w.pkt.type ≠ MSG_IGNORE then e.delivered ++ [w.pkt] else e.delivered) =
+            e.delivered := if_neg (by rw [hc]; simp)
+        rw [hR]
+        have a1 : ¬ (MSG_KEX_REPLY = MSG_KEXINIT) := by decide
+        have a2 : ¬ (MSG_KEX_REPLY = MSG_KEX_INIT) := by decide
+        simp only [h31, a1, a2, if_true, if_false]
+        split
+        · rw [sendNewkeys_delivered]
+        · simp
+      · by_cases h21 : w.pkt.type = MSG_NEWKEYS
+        · have hc : ctlOf w.pkt.type = some .newkeys := by rw [h21]; decide
+          have hR : (if ctlOf w.pkt.type = none ∧ w.pkt.type ≠ MSG_IGNORE then e.delivered ++ [w.pkt] else e.delivered) =
+              e.delivered := if_neg (by rw [hc]; simp)
+          rw [hR]
+          have a1 : ¬ (MSG_NEWKEYS = MSG_KEXINIT) := by decide
+          have a2 : ¬ (MSG_NEWKEYS = MSG_KEX_INIT) := by decide
+          have a3 : ¬ (MSG_NEWKEYS = MSG_KEX_REPLY) := by decide
+          simp only [h21, a1, a2, a3, if_true, if_false]
+          split <;> simp
+        · have hc : ctlOf w.pkt.type = none := by simp [ctlOf, h20, h30, h31, h21]
+          simp only [h20, h30, h31, h21, if_false, hc, true_and]
+          by_cases hi : w.pkt.type = MSG_IGNORE
+          · simp [hi]
+          · simp [hi]
+
+open AsyncsshModel.RekeyAbs in
+/-- on such a wire, "delivered to upper layers" and "application-level" are the same thing -/
+theorem ok_dlv (t : Nat) (h : okType t = true) :
+    (ctlOf t = none ∧ t ≠ MSG_IGNORE) ↔ deferrable t = true := by
+  have hcases : t = 20 ∨ t = 30 ∨ t = 31 ∨ t = 21 ∨ t = 2 ∨ (t = 4 ∨ t = 5 ∨ t = 6 ∨ 49 < t) := by
+    simp [okType, deferrable, MSG_IGNORE, MSG_KEXINIT, MSG_NEWKEYS, MSG_KEX_INIT, MSG_KEX_REPLY, MSG_DEBUG,
+      MSG_SERVICE_REQUEST, MSG_SERVICE_ACCEPT, MSG_KEX_LAST] at h
+    omega
+  rcases hcases with h | h | h | h | h | h
+  · subst h; decide
+  · subst h; decide
+  · subst h; decide
+  · subst h; decide
+  · subst h; decide
+  · have hd : deferrable t = true := by
+      simp [deferrable, MSG_DEBUG, MSG_SERVICE_REQUEST, MSG_SERVICE_ACCEPT, MSG_KEX_LAST]
+      omega
+    have a : t ≠ MSG_KEXINIT := by simp only [MSG_KEXINIT]; omega
+    have b : t ≠ MSG_KEX_INIT := by simp only [MSG_KEX_INIT]; omega
+    have c : t ≠ MSG_KEX_REPLY := by simp only [MSG_KEX_REPLY]; omega
+    have d : t ≠ MSG_NEWKEYS := by simp only [MSG_NEWKEYS]; omega
+    have i : t ≠ MSG_IGNORE := by simp only [MSG_IGNORE]; omega
+    simp [ctlOf, a, b, c, d, i, hd]
+
+def submittedC : List SysEv → List Pkt
+  | [] => []
+  | .submitC p :: r => p :: submittedC r
+  | _ :: r => submittedC r
+
+def submittedS : List SysEv → List Pkt
+  | [] => []
+  | .submitS p :: r => p :: submittedS r
+  | _ :: r => submittedS r
+
+structure DelInv (y : Sys) (Sc Ss : List Pkt) : Prop where
+  gc : Good y.c Sc
+  gs : Good y.s Ss
+  oc : OutOK y.c
+  os : OutOK y.s
+  ds : y.s.delivered = proj (y.c.out.take y.cDelivered)
+  dc : y.c.delivered = proj (y.s.out.take y.sDelivered)
+
+theorem app_deferrable (t : Nat) (h : MSG_KEX_LAST < t) : deferrable t = true := by
+  simp [deferrable, h]
+
+theorem app_ok (t : Nat) (h : MSG_KEX_LAST < t) : okType t = true := by
+  simp [okType, app_deferrable t h]
+
+theorem take_succ_of_getElem? (l : List Wire) (n : Nat) (w : Wire) (h : l[n]? = some w) :
+    l.take (n + 1) = l.take n ++ [w] := by
+  rw [List.take_add_one, h]; rfl
+
+theorem proj_single (w : Wire) : proj [w] = if deferrable w.pkt.type then [w.pkt] else [] := by
+  simp only [proj, List.map_cons, List.map_nil, List.filter_cons, List.filter_nil]
+
+theorem delInv_init : DelInv Sys.init [] [] :=
+  ⟨(fresh_endpoint_good false).1, (fresh_endpoint_good true).1,
+   ⟨(by intro w hw; cases hw), (by intro p hp; cases hp)⟩, ⟨(by intro w hw; cases hw), (by intro p hp; cases hp)⟩,
+   rfl, rfl⟩
+
+open AsyncsshModel.RekeyAbs in
+theorem delInv_step (y : Sys) (ev : SysEv) (Sc Ss : List Pkt) (hF : FullInv y) (h : DelInv y Sc Ss)
+    (hev : match ev with | .submitC p => MSG_KEX_LAST < p.type | .submitS p => MSG_KEX_LAST < p.type | _ => True) :
+    DelInv (sysStep y ev) (Sc ++ submittedC [ev]) (Ss ++ submittedS [ev]) := by
+  have hnf := reach_no_failure _ hF.ab
+  cases ev with
+  | submitC p =>
+    simp only [sysStep, submittedC, submittedS, List.append_nil]
+    have hg := sendPacket_good y.c p Sc h.gc
+    rw [app_deferrable _ hev] at hg
+    simp only [if_true] at hg
+    refine ⟨hg, h.gs, sendPacket_ook y.c p h.oc (app_ok _ hev), h.os, ?_, ?_⟩
+    · simp only; rw [take_of_extends (sendPacket_extends y.c p) _ hF.si.bc]; exact h.ds
+    · simp only; rw [sendPacket_delivered]; exact h.dc
+  | submitS p =>
+    simp only [sysStep, submittedC, submittedS, List.append_nil]
+    have hg := sendPacket_good y.s p Ss h.gs
+    rw [app_deferrable _ hev] at hg
+    simp only [if_true] at hg
+    refine ⟨h.gc, hg, h.oc, sendPacket_ook y.s p h.os (app_ok _ hev), ?_, ?_⟩
+    · simp only; rw [sendPacket_delivered]; exact h.ds
+    · simp only; rw [take_of_extends (sendPacket_extends y.s p) _ hF.si.bs]; exact h.dc
+  | limitC =>
+    simp only [sysStep, submittedC, submittedS, List.append_nil]
+    exact ⟨⟨h.gc.auth, h.gc.fifo, h.gc.idle, h.gc.defOK⟩, h.gs, ⟨h.oc.wire, h.oc.queue⟩, h.os, h.ds, h.dc⟩
+  | limitS =>
+    simp only [sysStep, submittedC, submittedS, List.append_nil]
+    exact ⟨h.gc, ⟨h.gs.auth, h.gs.fifo, h.gs.idle, h.gs.defOK⟩, h.oc, ⟨h.os.wire, h.os.queue⟩, h.ds, h.dc⟩
+  | deliverCS =>
+    simp only [submittedC, submittedS, List.append_nil]
+    cases hw : y.c.out[y.cDelivered]? with
+    | none =>
+      have : sysStep y .deliverCS = y := by simp [sysStep, hw]
+      rw [this]; exact h
+    | some w =>
+      have hst : sysStep y .deliverCS = { y with s := recvPacket y.s w, cDelivered := y.cDelivered + 1 } := by
+        simp [sysStep, hw]
+      rw [hst]
+      have hfs : y.s.failed = false := hnf.2
+      have hep : w.epoch = y.s.recvEpoch := by
+        rw [hF.si.rs hfs]; exact epochsOK_get 1 _ _ w hF.si.kc.ok hw
+      have hwok : okType w.pkt.type = true := h.oc.wire w (List.mem_of_getElem? hw)
+      refine ⟨h.gc, recvPacket_good y.s w Ss h.gs, h.oc, recvPacket_ook y.s w h.os, ?_, ?_⟩
+      · simp only
+        rw [recvPacket_delivered y.s w hfs hep, take_succ_of_getElem? _ _ _ hw, proj_append, proj_single, h.ds]
+        by_cases hd : deferrable w.pkt.type = true
+        · rw [if_pos ((ok_dlv _ hwok).2 hd), if_pos hd]
+        · rw [if_neg (fun hc => hd ((ok_dlv _ hwok).1 hc)), if_neg hd, List.append_nil]
+      · simp only; rw [take_of_extends (recvPacket_extends y.s w) _ hF.si.bs]; exact h.dc
+  | deliverSC =>
+    simp only [submittedC, submittedS, List.append_nil]
+    cases hw : y.s.out[y.sDelivered]? with
+    | none =>
+      have : sysStep y .deliverSC = y := by simp [sysStep, hw]
+      rw [this]; exact h
+    | some w =>
+      have hst : sysStep y .deliverSC = { y with c := recvPacket y.c w, sDelivered := y.sDelivered + 1 } := by
+        simp [sysStep, hw]
+      rw [hst]
+      have hfc : y.c.failed = false := hnf.1
+      have hep : w.epoch = y.c.recvEpoch := by
+        rw [hF.si.rc hfc]; exact epochsOK_get 1 _ _ w hF.si.ks.ok hw
+      have hwok : okType w.pkt.type = true := h.os.wire w (List.mem_of_getElem? hw)
+      refine ⟨recvPacket_good y.c w Sc h.gc, h.gs, recvPacket_ook y.c w h.oc, h.os, ?_, ?_⟩
+      · simp only; rw [take_of_extends (recvPacket_extends y.c w) _ hF.si.bc]; exact h.ds
+      · simp only
+        rw [recvPacket_delivered y.c w hfc hep, take_succ_of_getElem? _ _ _ hw, proj_append, proj_single, h.dc]
+        by_cases hd : deferrable w.pkt.type = true
+        · rw [if_pos ((ok_dlv _ hwok).2 hd), if_pos hd]
+        · rw [if_neg (fun hc => hd ((ok_dlv _ hwok).1 hc)), if_neg hd, List.append_nil]
+
+theorem submittedC_cons (ev : SysEv) (r : List SysEv) : submittedC (ev :: r) = submittedC [ev] ++ submittedC r := by
+  cases ev <;> simp [submittedC]
+
+theorem submittedS_cons (ev : SysEv) (r : List SysEv) : submittedS (ev :: r) = submittedS [ev] ++ submittedS r := by
+  cases ev <;> simp [submittedS]
+
+theorem delInv_run (evs : List SysEv) (y : Sys) (Sc Ss : List Pkt) (hF : FullInv y) (h : DelInv y Sc Ss)
+    (hn : sysAppOnly evs) : DelInv (sysRun y evs) (Sc ++ submittedC evs) (Ss ++ submittedS evs) := by
+  unfold sysRun
+  induction evs generalizing y Sc Ss with
+  | nil => simpa [submittedC, submittedS] using h
+  | cons ev rest ih =>
+    simp only [List.foldl_cons]
+    rw [submittedC_cons, submittedS_cons, ← List.append_assoc, ← List.append_assoc]
+    cases ev with
+    | submitC p => exact ih _ _ _ (fullInv_step y _ hF hn.1) (delInv_step y _ Sc Ss hF h hn.1) hn.2
+    | submitS p => exact ih _ _ _ (fullInv_step y _ hF hn.1) (delInv_step y _ Sc Ss hF h hn.1) hn.2
+    | limitC => exact ih _ _ _ (fullInv_step y _ hF trivial) (delInv_step y _ Sc Ss hF h trivial) hn
+    | limitS => exact ih _ _ _ (fullInv_step y _ hF trivial) (delInv_step y _ Sc Ss hF h trivial) hn
+    | deliverCS => exact ih _ _ _ (fullInv_step y _ hF trivial) (delInv_step y _ Sc Ss hF h trivial) hn
+    | deliverSC => exact ih _ _ _ (fullInv_step y _ hF trivial) (delInv_step y _ Sc Ss hF h trivial) hn
+
+theorem proj_take_prefix (l : List Wire) (n : Nat) : ∃ r, proj l = proj (l.take n) ++ r := by
+  refine ⟨proj (l.drop n), ?_⟩
+  rw [← proj_append, List.take_append_drop]
+
+/-- **Re-keying is invisible to the applications on both sides, under every interleaving.**  Across any number
+    of re-exchanges started by either side or both at once, with sends, limit expiries and deliveries interleaved
+    in any order: what each side's upper layers have received is, at every moment, an exact prefix of what the
+    other side's upper layers submitted — same packets, same order, nothing lost, duplicated or invented — and
+    the rest is either still on the wire or held in the sender's deferred queue. -/
+theorem pair_delivers_prefix_in_order (evs : List SysEv) (hn : sysAppOnly evs) :
+    let y := sysRun Sys.init evs
+    (∃ r, submittedC evs = y.s.delivered ++ r) ∧ (∃ r, submittedS evs = y.c.delivered ++ r) := by
+  have h := delInv_run evs Sys.init [] [] fullInv_init delInv_init hn
+  simp only [List.nil_append] at h
+  simp only
+  constructor
+  · obtain ⟨r, hr⟩ := proj_take_prefix (sysRun Sys.init evs).c.out (sysRun Sys.init evs).cDelivered
+    refine ⟨r ++ (sysRun Sys.init evs).c.deferred, ?_⟩
+    rw [← h.gc.fifo, hr, h.ds, List.append_assoc]
+  · obtain ⟨r, hr⟩ := proj_take_prefix (sysRun Sys.init evs).s.out (sysRun Sys.init evs).sDelivered
+    refine ⟨r ++ (sysRun Sys.init evs).s.deferred, ?_⟩
+    rw [← h.gs.fifo, hr, h.dc, List.append_assoc]
+
+/-- … and once a side's exchange is complete and everything it wrote has arrived, the peer's upper layers have
+    received exactly everything submitted. -/
+theorem pair_delivers_everything_when_drained (evs : List SysEv) (hn : sysAppOnly evs)
+    (hk : (sysRun Sys.init evs).c.kexComplete = true)
+    (hd : (sysRun Sys.init evs).cDelivered = (sysRun Sys.init evs).c.out.length) :
+    (sysRun Sys.init evs).s.delivered = submittedC evs := by
+  have h := delInv_run evs Sys.init [] [] fullInv_init delInv_init hn
+  simp only [List.nil_append] at h
+  rw [h.ds, hd, List.take_length, ← h.gc.fifo, h.gc.idle hk, List.append_nil]
+
 end AsyncsshModel.C11
